@@ -147,31 +147,35 @@ def report_build_problems(ck, items, pid):
 
 # ------------------------------------------------------------------ C01 / C02 (tree properties)
 
-def tree_check(work, pid, oracle, level_text):
+def tree_check(work, pid, oracle, level_text, gen_opts=None, need=None, cases_fn=None, with_k1=True, n_quick=(40, 40), n_thorough=(600, 120), maxlen=30, prefilter=None):
     ck = lv.Check(pid, 'proof')
     quick = ck.tier == 'quick'
     st = proof_step(ck, pid)
     lv.build_impl(bins=False)
 
     # ---- K1: builder histories
-    pbk = k1mod.k1_driver(work)
-    nh = 2000 if quick else 50000
-    hs = [k1mod.gen_history(ck.rng) for _ in range(nh)]
-    if not quick:
-        hs += k1mod.enumerate_histories(5)
-    corpus_h = os.path.join(lv.VERIF, 'corpus', 'k1_histories.txt')
-    if os.path.exists(corpus_h):
-        hs = [l.strip() for l in open(corpus_h) if l.strip() and not l.startswith('#')] + hs
-    bi, bm = k1mod.run_k1(pbk, hs)
-    k1dis, k1stats = k1mod.compare_k1(hs, bi, bm)
+    hs = []
+    k1dis, k1stats = [], {'valid_complete': 0}
+    if with_k1:
+        pbk = k1mod.k1_driver(work)
+        nh = 2000 if quick else 50000
+        hs = [k1mod.gen_history(ck.rng) for _ in range(nh)]
+        if not quick:
+            hs += k1mod.enumerate_histories(5)
+        corpus_h = os.path.join(lv.VERIF, 'corpus', 'k1_histories.txt')
+        if os.path.exists(corpus_h):
+            hs = [l.strip() for l in open(corpus_h) if l.strip() and not l.startswith('#')] + hs
+        bi, bm = k1mod.run_k1(pbk, hs)
+        k1dis, k1stats = k1mod.compare_k1(hs, bi, bm)
 
     # ---- K3: generated parsers
-    n_g = 40 if quick else 600
-    n_in = 40 if quick else 120
+    n_g, n_in = n_quick if quick else n_thorough
     citems = corpus_items(work, pid)
-    good, all_items = gen_items(ck, work, n_g)
+    good, all_items = gen_items(ck, work, n_g, opts=gen_opts, need=need)
     run_items = [it for it in citems if 'pb' in it and it['pb'].rustc_ok] + good
-    k3.run_all(run_items, lambda it: std_cases(ck, it, n_in))
+    if prefilter:
+        run_items = [it for it in run_items if prefilter(it)]
+    k3.run_all(run_items, (lambda it: cases_fn(ck, it, n_in)) if cases_fn else (lambda it: std_cases(ck, it, n_in, maxlen=maxlen)))
     probs = report_build_problems(ck, all_items + citems, pid)
 
     kf = known.Known(pid)
@@ -197,7 +201,7 @@ def tree_check(work, pid, oracle, level_text):
                 gv_false += 1
             if cmp_ is not None:
                 disagreements.append({'grammar': it['text'], 'entry': entry, 'tokens': toks, 'bits': bits, 'what': cmp_})
-            o = oracle(it['pb'], toks, impl)
+            o = oracle(it, case, impl, model)
             if o is not None:
                 rec = {'grammar': it['text'], 'entry': entry, 'tokens': toks, 'bits': bits, 'what': o,
                        'model_ghost_valid': model.get('gv'), 'impl_nodes': impl.get('nodes')}
@@ -239,7 +243,8 @@ def tree_check(work, pid, oracle, level_text):
         for (case, impl, model, cmp_) in it.get('cases', [])[:2]:
             samples.append({'grammar': it['text'], 'entry': case[0], 'tokens': case[1], 'bits': case[2],
                             'impl_result': impl['r'], 'nodes': impl.get('nodes'), 'diags': impl.get('diags')})
-    samples.append({'k1_history': hs[min(5, len(hs) - 1)]})
+    if hs:
+        samples.append({'k1_history': hs[min(5, len(hs) - 1)]})
     nthm = len(st['theorems'])
     obligations = nthm + 3
     discharged = (nthm if not proof_broken(st) else 0) + (0 if k1dis else 1) + (0 if disagreements else 1) + (0 if probs else 1)
@@ -266,12 +271,12 @@ def tree_check(work, pid, oracle, level_text):
 
 
 def check_C01(work, args):
-    tree_check(work, 'C01', k3.oracle_c01,
+    tree_check(work, 'C01', lambda it, case, impl, model: k3.oracle_c01(it['pb'], case[1], impl),
                'lossless: theorems over Cst.v/ABuild.v/Runtime.v/Exec.v (see Props/C01.v) + K1/K3 correspondence + direct walk oracle')
 
 
 def check_C02(work, args):
-    tree_check(work, 'C02', k3.oracle_c02,
+    tree_check(work, 'C02', lambda it, case, impl, model: k3.oracle_c02(it['pb'], case[1], impl),
                'well-formed tree: refinement of the abstract builder for all valid histories (Props/C02.v) + K1/K3 + direct structural oracle')
 
 
@@ -461,3 +466,96 @@ def check_C10(work, args):
 
 def check_C14(work, args):
     analysis_check(work, 'C14', 'recovery sets: Coq model of RecoverySetGenerator tied by K2; reference = brute-force dominators on an independent graph')
+
+
+# ------------------------------------------------------------------ C03 - C08, C16 (parser behaviour)
+import oracles  # noqa: E402
+
+
+def cases_c03(ck, it, n):
+    cs = std_cases(ck, it, n, maxlen=60)
+    if it.get('corpus') is not None:
+        return cs
+    g = it['g']
+    dv = gen_grammar.Deriver(g, ck.rng)
+    alphabet = [t for t in g.tokens if t not in g.skip]
+    s = dv.derive(g.start)[:40]
+    for i in range(len(s) + 1):
+        cs.append((g.start, s[:i], '1'))
+    for t in ck.rng.sample(alphabet, min(3, len(alphabet))):
+        cs.append((g.start, [t] * 200, '0'))
+    cs.append((g.start, [ck.rng.choice(alphabet + ['Error'] + list(g.skip)) for _ in range(150)], '01'))
+    return cs
+
+
+def check_C03(work, args):
+    tree_check(work, 'C03', oracles.oracle_c03,
+               'totality: K3 correspondence (Exec.v on the translated program vs the compiled parser, incl. fuel exhaustion vs watchdog) + catch_unwind/watchdog oracle',
+               cases_fn=cases_c03, with_k1=False, prefilter=oracles.productive, n_quick=(40, 40), n_thorough=(500, 120))
+
+
+def check_C04(work, args):
+    tree_check(work, 'C04', oracles.oracle_c04,
+               'no diagnostic iff sentence: K3 correspondence + Earley membership / prioritised reference interpreter',
+               gen_opts=dict(pred_true_only=True, assertion=0.0), with_k1=False, maxlen=16,
+               prefilter=lambda it: not ({'pred_user', 'assert'} & oracles.grammar_features(it['res']['dump'])))
+
+
+def check_C05(work, args):
+    import known as kn
+    tree_check(work, 'C05', oracles.oracle_c05,
+               'derivation tree with node operators: K3 correspondence + reference interpreter (textbook sets, value semantics)',
+               gen_opts=dict(empty_rule=0.0, marker=0.5, rename=0.4, elide=0.4, action=0.4, whole_create=0.4), with_k1=False, maxlen=16,
+               prefilter=lambda it: 'empty_rule' not in oracles.grammar_features(it['res']['dump'])
+               and not kn.crossing_or_stale_markers(it['res']['dump']) and not kn.creation_in_choice_prefix(it['res']['dump']))
+
+
+def check_C06(work, args):
+    tree_check(work, 'C06', oracles.oracle_c06,
+               'first error at the first offending token, strictly increasing positions: K3 correspondence + Earley viable-prefix oracle',
+               gen_opts=dict(pred=0.0, assertion=0.0, choice=0.0), with_k1=False, maxlen=16,
+               prefilter=lambda it: not ({'pred_user', 'pred_true', 'assert', 'choice'} & oracles.grammar_features(it['res']['dump']))
+               and oracles.productive(it))
+
+
+def check_C07(work, args):
+    tree_check(work, 'C07', oracles.oracle_c07,
+               'precedence and associativity: K2/K3 correspondence + definitional precedence-consistency oracle + reference precedence tree',
+               gen_opts=dict(pratt=1.0, nrules=(2, 4), choice=0.05, marker=0.05, elide=0.05, ret=0.0), with_k1=False, maxlen=24,
+               need=lambda g: 'pratt' in g.features)
+
+
+def check_C08(work, args):
+    tree_check(work, 'C08', oracles.oracle_c08,
+               'backtracking leaves no trace: K3 correspondence + callback balance + reference interpreter with value semantics',
+               gen_opts=dict(choice=0.9, commit=0.5, nrules=(2, 5), pred_true_only=True, assertion=0.0), with_k1=False, maxlen=16,
+               need=lambda g: 'choice' in g.features,
+               prefilter=lambda it: not ({'pred_user', 'assert'} & oracles.grammar_features(it['res']['dump'])))
+
+
+def cases_c16(ck, it, n):
+    if it.get('corpus') is not None:
+        return std_cases(ck, it, n)
+    g = it['g']
+    out = []
+    triv = list(g.skip) + ['Error']
+    for e in [g.start] + list(g.parts):
+        k = max(4, n // 4) if e == g.start else 3
+        for toks in gen_grammar.inputs_for(g, ck.rng, e, k, maxlen=20, trivia=False):
+            bits = ''.join(ck.rng.choice('01') for _ in range(ck.rng.randint(0, 5)))
+            out.append((e, toks, bits))
+            for _ in range(3):
+                v = gen_grammar.add_trivia(ck.rng, toks, triv, p=0.35)
+                if ck.rng.random() < 0.3:
+                    v = [ck.rng.choice(triv)] + v
+                if ck.rng.random() < 0.3:
+                    v = v + [ck.rng.choice(triv)]
+                if len(v) != len(toks):
+                    out.append((e, v, bits))
+    return out
+
+
+def check_C16(work, args):
+    tree_check(work, 'C16', oracles.make_oracle_c16(),
+               'skipped tokens are transparent: K3 correspondence + pairwise comparison of parses with and without trivia',
+               gen_opts=dict(skip=1.0), cases_fn=cases_c16, with_k1=True)
